@@ -162,9 +162,23 @@ void summary_if_multi(vf::Ctx&, Result const&, std::string const&)
 }
 
 template <typename T, typename R>
-void run_layer(vf::Ctx& c, vf::RunCfg<T> const& cfg, std::vector<std::size_t> const& calls, T target, bool& unequal, bool unwritable)
+void run_layer(vf::Ctx& c, vf::RunCfg<T> const& cfg, std::vector<std::size_t> const& all_calls, T target, bool& unequal, bool unwritable, bool fewer_dists)
 {
     using Chk = typename R::Chk;
+    // optionally the run under test continues a checkpoint with an integrand that has one distribution less than the one the
+    // first iteration was made with (results of different layouts in one checkpoint): whatever happens then - a checkpoint
+    // or an exception out of the combination of the results - has to happen in all four modes alike
+    vf::RunCfg<T> cfg2 = cfg;
+    Chk start = R::fresh(cfg);
+    std::vector<std::size_t> calls = all_calls;
+    if (fewer_dists)
+    {
+        *cfg.fn.counter = 0;
+        start = R::run(cfg, start, std::vector<std::size_t>(all_calls.begin(), all_calls.begin() + 1), [](Chk const&) { return true; });
+        calls.erase(calls.begin());
+        cfg2.fn.dists.pop_back();
+    }
+    std::size_t const counter_start = *cfg.fn.counter;
     static hep::callback_mode const modes[] = {hep::callback_mode::silent, hep::callback_mode::silent_and_write_chkpt, hep::callback_mode::verbose,
         hep::callback_mode::verbose_and_write_chkpt};
     // an unwritable checkpoint path (missing directory) must not change or break the run either: the writing modes
@@ -175,22 +189,32 @@ void run_layer(vf::Ctx& c, vf::RunCfg<T> const& cfg, std::vector<std::size_t> co
     for (int m = 0; m != 4; ++m)
     {
         std::remove(file.c_str());
-        *cfg.fn.counter = 0;
+        *cfg.fn.counter = counter_start;
         std::string printed;
+        bool threw = false;
         {
             CoutCapture cap;
             hep::callback<Chk> inner(modes[m], file, target);
             auto& texts = seen[m];
             auto cb = [inner, &texts](Chk const& k) mutable { texts.push_back(vf::text_of(k)); return inner(k); };
-            Chk const out = R::run(cfg, R::fresh(cfg), calls, cb);
-            final_text[m] = vf::text_of(out);
+            try
+            {
+                Chk const out = R::run(cfg2, start, calls, cb);
+                final_text[m] = vf::text_of(out);
+                printed = cap.buf.text;
+                if (m >= 2 && !out.results().empty() && !fewer_dists) { summary_if_multi<T>(c, out.results().back(), printed); }
+            }
+            catch (std::exception const& e)
+            {
+                if (!fewer_dists) { throw; }
+                threw = true;
+                final_text[m] = std::string("exception: ") + e.what();
+            }
             VF_CHECK(c, std::cout.good(), "C20:cout-state", "std::cout is not good() after a run in mode " << m);
-            printed = cap.buf.text;
-            if (m >= 2 && !out.results().empty()) { summary_if_multi<T>(c, out.results().back(), printed); }
         }
         bool const writes = (m == 1 || m == 3);
         bool const prints = m >= 2;
-        if (!calls.empty())
+        if (!calls.empty() && !threw && !fewer_dists)
         {
             VF_CHECK(c, prints == !printed.empty(), "C20:printing", "mode " << m << (printed.empty() ? " printed nothing" : " printed although silent"));
             std::ifstream in(file);
@@ -273,12 +297,14 @@ void run_t(vf::Ctx& c)
     bool unequal = false;
     bool const unwritable = t.pick(5) == 0;
     if (unwritable) { c.label("unwritable-checkpoint-path"); c.desc << " unwritable-path"; }
+    bool const fewer_dists = t.pick(4) == 1 && !cfg.fn.dists.empty() && calls.size() >= 2;
+    if (fewer_dists) { c.label("continued-with-fewer-distributions"); c.desc << " continued-with-one-distribution-less"; }
     using E = std::mt19937;
     switch (cfg.kind)
     {
-    case vf::PLAIN: run_layer<T, vf::Plain<T, E>>(c, cfg, calls, target, unequal, unwritable); break;
-    case vf::VEGAS: run_layer<T, vf::Vegas<T, E>>(c, cfg, calls, target, unequal, unwritable); break;
-    default: run_layer<T, vf::Multi<T, E>>(c, cfg, calls, target, unequal, unwritable); break;
+    case vf::PLAIN: run_layer<T, vf::Plain<T, E>>(c, cfg, calls, target, unequal, unwritable, fewer_dists); break;
+    case vf::VEGAS: run_layer<T, vf::Vegas<T, E>>(c, cfg, calls, target, unequal, unwritable, fewer_dists); break;
+    default: run_layer<T, vf::Multi<T, E>>(c, cfg, calls, target, unequal, unwritable, fewer_dists); break;
     }
     c.label("run-layer");
     if (cfg.fn.family == 5 || cfg.fn.family == 3 || cfg.fn.family == 6 || cfg.fn.family == 8) { c.label("degenerate-integrand"); }
